@@ -217,6 +217,52 @@ def run_split(ctx, prog, plan_, T, Tsteps, K, stats):
             S = strip_end(r.tape)
             if S != Tn[:len(S)]:
                 prefix_ok(len(S), "step-calls-not-transparent")
+    if not viol and state["ended"]:
+        # The trace comparison ends at the first escaping failure, but the *postconditions of each call*
+        # hold whatever happened before: run(until=t) that returns has now == t, run(until=E) that
+        # returns has processed E and returns its value, step() raises nothing but EmptySchedule or a
+        # failure of the program.
+        prog_excs = tuple(kern.EXC.values())
+        done = plan_.index(el) + 1 if plan_ else 0
+        for el2 in plan_[done:] + [["num", env.now + 1.5], ["steps", 3], ["num", env.now + 4.25]]:
+            if env.peek() == float("inf") or viol:
+                break
+            stats["post_escape_calls"] += 1
+            if el2[0] == "num":
+                if not (el2[1] > env.now):
+                    continue
+                res = r.run_call(until=el2[1])
+                if res[0] == "ret" and env.now != el2[1]:
+                    viol.append(("run-until-returned-at-wrong-time[after-an-escape]", "run(until=t) returned with now != t",
+                                 {"t": el2[1], "now": env.now}))
+                elif res[0] == "raise" and not isinstance(res[1], prog_excs):
+                    viol.append(("unexpected-exception-from-run[after-an-escape]", "run(until=t) raised something that is not a failure of the program",
+                                 repr(res[1])[:200]))
+            elif el2[0] == "ev":
+                lab = el2[1]
+                E = r.shared[int(lab[1:])] if lab[0] == "E" else (r.procs[int(lab[1:])] if int(lab[1:]) < len(r.procs) else None)
+                if E is None or E.callbacks is None:
+                    continue
+                res = r.run_call(until=E)
+                if res[0] == "ret" and (E.callbacks is not None or res[1] is not E._value):
+                    viol.append(("until-event-returned-early[after-an-escape]", "run(until=E) returned although E has not been processed (or not E's value)",
+                                 {"event": lab, "result": repr(res)[:200]}))
+                elif res[0] == "raise" and not isinstance(res[1], prog_excs + (RuntimeError,)):
+                    viol.append(("unexpected-exception-from-run[after-an-escape]", "run(until=E) raised something that is not a failure of the program",
+                                 repr(res[1])[:200]))
+            else:
+                for _ in range(el2[1]):
+                    try:
+                        env.step()
+                    except K.EmptySchedule:
+                        break
+                    except prog_excs:
+                        pass
+                    except BaseException as exc:
+                        viol.append(("unexpected-exception-from-step[after-an-escape]", "step() raised something that is neither EmptySchedule nor a failure of the program",
+                                     repr(exc)[:200]))
+                        break
+        return viol, effective
     if not viol:
         if not state["ended"]:
             res = r.run_call()
@@ -315,7 +361,7 @@ def hashseed_part(ctx, n, seeds):
 
 def run_shard(ctx):
     stats = {k: 0 for k in ("plans", "numeric_stops", "stops_coinciding", "until_event_calls",
-                            "until_event_late_waiter", "step_calls", "refused_until", "inprocess_reruns", "skipped_many_escapes")}
+                            "until_event_late_waiter", "step_calls", "refused_until", "inprocess_reruns", "skipped_many_escapes", "post_escape_calls")}
     for i in ctx.cases(ncases(ctx.tier)):
         rng = ctx.rng(i)
         prog = kern.gen_program(rng, PROFILE)
@@ -343,7 +389,7 @@ def replay(ctx, case):
     if "netsplit_case" in case:
         return net_split_part(ctx, 150)
     stats = {k: 0 for k in ("plans", "numeric_stops", "stops_coinciding", "until_event_calls",
-                            "until_event_late_waiter", "step_calls", "refused_until", "inprocess_reruns", "skipped_many_escapes")}
+                            "until_event_late_waiter", "step_calls", "refused_until", "inprocess_reruns", "skipped_many_escapes", "post_escape_calls")}
     viol, _, _ = one_case(ctx, case["program"], case["plan"], stats)
     for m, what, wit in viol:
         ctx.violation(m, what, wit, case)
